@@ -44,6 +44,9 @@ def main():
             if certdir is None and "WITH_TLS" in flags:
                 certdir = "/verif/harness/certs"   # demos that look for certs/ relative to their cwd take the directory as argv[1]
             shutil.copy(demo, base + "/demo.cpp")
+            for f in os.listdir(src):          # helper headers / sources the demo includes
+                if f.endswith((".h", ".hpp")) or (f.endswith(".cpp") and f != "demo.cpp"):
+                    shutil.copy(os.path.join(src, f), base + "/" + f)
         libs = " -lssl -lcrypto" if "WITH_TLS" in flags else ""
         if os.path.exists(demo) and "-ldl" in "".join(open(demo, errors="replace").readlines()[:40]):
             libs += " -ldl"
